@@ -6,6 +6,15 @@ CLAIMED = {
          "Theorems are about exact arithmetic (fields, R), not IEEE rounding; the model is hand-written and tied to the code by differential execution of ~3k (quick) / 64k (thorough) generated operand sets, so the tie is only as good as that generator; Lean kernel + propext/Classical.choice/Quot.sound.",
          "Lean 4 theorems over a generic field model + differential correspondence harness", "5/C11"),
 }
+CLAIMED["C12"] = ("dsin/dcos/dtan are sin/cos/tan of x*pi/180 and dasin/dacos/datan invert them on the stated intervals, as Lean theorems over R (Mathlib arcsin_sin, arccos_cos, arctan_tan); approx_eq iff |a-b|<eps. Model tied to the crate by a bit-exact correspondence run (Lean Float calls the same libm) and by oracles that feed the implementation's results back through Lean's own sin/cos/tan.",
+  "libm functions are taken to be the real functions (R) / Lean's libm bindings (Float); rounding is outside the theorems; tie is differential over every integer degree -360..360 plus ~8k (quick) / 250k (thorough) generated arguments.",
+  "Lean 4 theorems over R (Mathlib inverse-trig lemmas) + differential correspondence harness", "5/C12")
+CLAIMED["C09"] = ("Matrix algebra of the Mt4 model as Lean theorems over every commutative ring: identity neutral, associativity, (A*B)*p=A*(B*p), transposition laws, translate/scale action, apply_matrix = full affine map, column-major indexing with the panic; over every field: inverse = None iff det = 0, otherwise a two-sided inverse, det multiplicative (so None only when no inverse exists). The 16 cofactor expressions and the determinant are regenerated from mt4.rs on every run, so the inverse theorems are re-proved against the current source; the rest of the model is tied by correspondence (bit-exact today) and oracles on implementation outputs.",
+  "Exact arithmetic, not IEEE; 'to rounding' for A*inverse(A) is an oracle (tolerance scaled by norms) and not a theorem; hand-written parts of the model tied by differential execution over five matrix families.",
+  "Lean 4 theorems over commutative rings/fields (ring, field_simp) with translator-regenerated cofactor table + differential correspondence harness", "5/C09")
+CLAIMED["C10"] = ("Every rotation route of the model (Pt2::rotated, Pt3::rotated_x/y/z, rot_x/y/z_matrix through Mt4*Pt4 and Mt4*Pt3, rot_vec) is proved equal to the reference right-handed rotation / Rodrigues' formula for every (c,s) over any commutative ring; isometry, composition (a then b = a+b) and inverse (-a) for c^2+s^2=1 and over R in degrees with Mathlib's sin_add/cos_add; look_at_matrix_lh is proved a proper rotation (orthonormal columns, det 1) taking +Z to the unit direction and +X perpendicular to up for eye != center and up not parallel, and for up=+Z with exactly vertical directions. Tied to the crate by correspondence (all routes for one (point, angle, axis) in one case) and route-agreement oracles.",
+  "OpenSCAD's rotate() is represented by the hand-transcribed standard right-handed matrices (Spec/Rotation.lean); real arithmetic, not IEEE (sin(180 deg) is 1.2e-16 in doubles, 0 in the theorem); in-place/list/Polyhedron forms are tied by the harness (they are maps in the model).",
+  "Lean 4 theorems over commutative rings and R (ring, linear_combination, Mathlib trig) + differential correspondence harness", "5/C10")
 NOT_YET = {
 }
 ALL = ["C%02d" % i for i in range(1, 20)]
